@@ -20,9 +20,8 @@ MUTANTS = [
          edits=[(D, "    'short': short_uint,\n", "    'short': short_int,\n")]),
     dict(id='c01-channel-packed-signed', property='C01', also=['C04', 'C20'],
          what='frame envelope packs the channel as signed 16-bit',
-         edits=[(F, "struct.pack('>BHI', frame_type, channel_id, "
-                    "len(payload))",
-                 "struct.pack('>BhI', frame_type, channel_id, len(payload))")]),
+         edits=[(F, "struct.pack('>BHI', frame_type, channel_id,",
+                 "struct.pack('>BhI', frame_type, channel_id,")]),
     dict(id='c01-bit-position-wraps', property='C01', also=['C05'],
          what='decoder reads bit positions modulo 4 (only the 5th bit of '
               'Exchange.Declare / Queue.Declare is wrong)',
